@@ -482,6 +482,35 @@ def run(ctx):
     binding.name_agreement_rule(ctx, "R14.4b", cg, track_funcs)
     must_fire(ctx, "R14.4b", {"m.py": "def g(p):\n    return Point(longitude=p.latitude, latitude=p.longitude, id=1)\n"},
               lambda sub, mp: binding.name_agreement_rule(sub, "R14.4b", CallGraph(mp), mp.all_functions), "swapped keywords")
+    # ---- R14.5 the constructors store coordinate grids as given: interpolation along a periodic axis brackets targets on the stored
+    # grid, which must keep the order (and values) the caller supplied - a grid reduced modulo its period, sorted or rolled on its way
+    # into the dataset is no longer monotone / no longer labels the data it came with
+    SPECQ = "wavespectra.spectrum."
+    for q in (SPECQ + "create_1d_spectrum", SPECQ + "create_2d_spectrum", SPECQ + "create_spectrum_dataset"):
+        fq = p.functions.get(q)
+        if fq is None:
+            continue
+        coords = [a for a in fq.params if a in ("frequency", "direction", "time", "latitude", "longitude")]
+        bad_ = []
+        for n in [x for x in ast.walk(fq.node) if isinstance(x, (ast.Assign, ast.AugAssign, ast.AnnAssign))]:
+            tg = n.targets if isinstance(n, ast.Assign) else [n.target]
+            if not any(isinstance(t, ast.Name) and t.id in coords for t in tg) or n.value is None:
+                continue
+            v = n.value
+            alters = isinstance(n, ast.AugAssign) or any(
+                isinstance(x, ast.BinOp) and isinstance(x.op, (ast.Mod, ast.Add, ast.Sub, ast.Mult, ast.Div, ast.FloorDiv)) or
+                isinstance(x, ast.Call) and ast.unparse(x.func).split(".")[-1] in ("mod", "remainder", "fmod", "sort", "sorted", "unique",
+                                                                                   "roll", "flip", "unwrap", "argsort", "deg2rad", "rad2deg")
+                for x in ast.walk(v))
+            if alters:
+                bad_.append(n)
+        if bad_:
+            ctx.bad("R14.5", f"{fq.name}[coordinates stored as given]", "a coordinate grid is altered on its way into the dataset: "
+                    + ast.unparse(bad_[0])[:90], fq.loc(bad_[0]), derived=ast.unparse(bad_[0])[:120],
+                    required="the grid the caller supplied (conversions of type only)")
+        else:
+            ctx.ok("R14.5", f"{fq.name}[coordinates stored as given]", "no coordinate parameter is re-computed before it is stored", fq.loc())
+    ctx.require_count("R14.5", 2)
     ctx.require_count("R14.1", 4)
     ctx.require_count("R14.2", 13)
     ctx.require_count("R14.3", 18)
